@@ -207,3 +207,19 @@ CLAIMS["C07"] = dict(
          "see proposed_fixes/C07-*.diff, findings/C07_demo.py, corpus/C07/. Trusted: Lean kernel + Mathlib; harness generator, reference integration, finite differences "
          "(tolerance 1e-4 (1+|fd|) on the 1e-12 reference; 1e-3 (1+|fd|) + 1e-7 scale/h on pygom's own cost). Non-unit weights are exercised for Square and Normal only.",
     technique="Lean 4 + Mathlib HasDerivAt (chain rule over list sums), permutation/sortedness of index lists, decide counterexamples; model/code correspondence; finite-difference oracle")
+CLAIMS["C08"] = dict(
+    text="Proved in Lean for histories of any length and any interleaving of mutators, parameter assignments and evaluations, and for "
+         "any semantics of 'compile then call': in the recompile-flag state machine of add_func / add_compiled_sympy_object / CompileCanary "
+         "(snapshot = definition the generator read + argument list _sp at compile time; parameter values read at call time; ode master) "
+         "every evaluation returns what a freshly constructed model with the same current definition and parameter values returns, "
+         "provided every mutator trips the flags, the param_list/state_list setters refresh _sp, and the evaluator is in the canary's list "
+         "(never_stale; never_stale_source for the source as modelled). For the tree as found the partial theorem (bad mutators only before "
+         "the first evaluation) and concrete stale histories (add_ode after ode; parameter declared after a compile) are proved. "
+         "The model is tied to the code on every run: random histories on the real SimulateOde, all 11 evaluators observed after every step "
+         "against a freshly constructed model (direct oracle) and against the version the Lean driver predicts.",
+    note="The Lean model (Canary.sourceCfg) describes the tree WITH proposed_fixes/C08-add-ode-trip.diff and C08-decl-setters-refresh-sp.diff applied; "
+         "until they are applied ./check C08 reports a VIOLATION on /repo (add_ode, late parameter / state declarations). "
+         "Trusted: Lean kernel; harness generator/replay; pymodel route replay; lambda back-end only; 'fresh model' assigns 0 to a parameter "
+         "never given a value. Recompile pattern and flag dictionary are compared with the model but recorded only (tags). "
+         "DeterministicOde on its own is not covered (it has no compiler object _SC and its canary watches nothing).",
+    technique="Lean 4 invariant over operation histories (induction on the op list, abstract compile semantics) + model/code correspondence + fresh-model oracle")
